@@ -102,7 +102,7 @@ fn run_eq(s: &Scn, st: &mut RunStats, check_probe_only: bool) -> Result<(), Viol
     let seq_all = sequential(&s.cfg, &all)?;
     let seq_probe_fresh = if s.probe.is_empty() { vec![] } else { sequential(&s.cfg, &s.probe)? };
     let n = all.len();
-    let plan = Arc::new(ExecPlan { via_analyzer: s.via_analyzer, cfg: s.cfg.clone(), dispatchers: vec![all.iter().map(|p| p.frame.clone()).collect()], stats_calls: 0, wait_for: None, consumer_gone_after: None });
+    let plan = Arc::new(ExecPlan { via_analyzer: s.via_analyzer, cfg: s.cfg.clone(), dispatchers: vec![all.iter().map(|p| p.frame.clone()).collect()], stats_calls: 0, wait_for: None, consumer_gone_after: None, shutdown_after_yields: None });
     st.evals = 0;
     let mut any = false;
     for seed in &s.schedules {
@@ -546,7 +546,7 @@ impl Prop for C15Pool {
         let mut unfiltered = s.cfg.clone();
         unfiltered.filter = None;
         let expect = sequential(&unfiltered, &sub)?;
-        let plan = Arc::new(ExecPlan { via_analyzer: s.via_analyzer, cfg: s.cfg.clone(), dispatchers: vec![s.trace.iter().map(|p| p.frame.clone()).collect()], stats_calls: 0, wait_for: None, consumer_gone_after: None });
+        let plan = Arc::new(ExecPlan { via_analyzer: s.via_analyzer, cfg: s.cfg.clone(), dispatchers: vec![s.trace.iter().map(|p| p.frame.clone()).collect()], stats_calls: 0, wait_for: None, consumer_gone_after: None, shutdown_after_yields: None });
         let n_adm = admit.iter().filter(|a| **a == Some(true)).count();
         let n_rej = admit.iter().filter(|a| **a == Some(false)).count();
         st.probe_n("frames_admitted", n_adm as u64);
